@@ -95,6 +95,13 @@ def window_alias(py: Dict[str, Any], rs: Dict[str, Any]) -> bool:
     return False
 
 
+# Round 5: report a low-power-state difference as a verdict of its own instead of filing it under @edge/@alias.
+# DISABLED: with True the unchanged tree fires `power / FF RESET / power:py=halted,rs=running` (RESET executed by a
+# core that starts halted; genuine, so far swallowed by C06-edge-class) -- waiting for the lead's decision on that
+# finding.  With True seeded/C06/r1 is caught (power / DE HALT, DF OFF); with False HALT/OFF divergences stay @edge.
+POWER_OWN_VERDICT = False
+
+
 def compare_step(case: Dict[str, Any], py: Dict[str, Any], rs: Dict[str, Any], init: pycore.HashMemory,
                  where: str, regs0: Optional[Dict[str, int]] = None) -> List[Violation]:
     """Field-level differential of one executed step."""
@@ -162,7 +169,7 @@ def compare_step(case: Dict[str, Any], py: Dict[str, Any], rs: Dict[str, Any], i
         details.append("mem " + ", ".join(f"{a:#x}: py={x:#04x} rs={y:#04x}" for a, x, y, _, _ in memdiff[:6]))
     near_top = (py.get("pc", 0) & 0xFFFFF) >= 0xFFFF0
     pw = [d for d in diffs if d.startswith("power:")]
-    if pw and not near_top:
+    if POWER_OWN_VERDICT and pw and not near_top:
         # The low-power state is not an address phenomenon: a data access at the first/last byte of a space (HALT and
         # OFF always write SSR = 0x1000FF) or a window alias cannot explain it, so it is reported on its own and never
         # filed under the @edge / @alias classes (only a fetch at the top of memory can make the cores decode
